@@ -96,16 +96,23 @@ def run_cases(fn, cases, warm_cases=(), procs=None, chunk=None, stall=240, group
         sched.reset_pool()          # pool threads started by warm-up calls are joined here
     except Exception:
         pass
-    ntasks, comms = 0, []
-    for t in os.listdir("/proc/self/task"):
-        try:
-            comm = open(f"/proc/self/task/{t}/comm").read().strip()
-        except OSError:
-            continue
-        # allocator / polars housekeeping threads exist from import time and are harmless
-        if not (comm.startswith("jemalloc") or comm.startswith("polars") or comm.startswith("rayon")):
-            ntasks += 1
-            comms.append(comm)
+    import time as _time
+    for _attempt in range(100):
+        ntasks, comms = 0, []
+        for t in os.listdir("/proc/self/task"):
+            try:
+                comm = open(f"/proc/self/task/{t}/comm").read().strip()
+            except OSError:
+                continue
+            # allocator / polars housekeeping threads exist from import time and are harmless
+            if not (comm.startswith("jemalloc") or comm.startswith("polars") or comm.startswith("rayon")):
+                ntasks += 1
+                comms.append(comm)
+        if ntasks <= 1:
+            break
+        # a joined Python thread (executor shut down above, TLC shard threads) may still be listed by the kernel for a
+        # moment on a loaded machine: wait up to 10 s for it to be reaped before calling it a leak
+        _time.sleep(0.1)
     if ntasks > 1 and not _ALLOW_THREADS:
         import threading
         names = [t.name for t in threading.enumerate()]
